@@ -960,6 +960,13 @@ func runTConv(m *model.Model, s *ob.Set) {
 					if !sameObj(ev.Args[0], z) {
 						continue
 					}
+					if ev.Fn != "(*Decimal).round" {
+						// the scaling by 2**n is inexact in general: it must run with more digits than the
+						// final rounding keeps (the code uses prec+1), otherwise the value is rounded twice
+						if p, ok := evRecvInt(m, ev, F.Prec); !ok || p <= wp {
+							return fmt.Sprintf("%s scales the binary mantissa at prec=%s, not above the final precision %d (no guard digit: double rounding)", ev.Fn, cdai.Str(ev.Recv[F.Prec]), wp)
+						}
+					}
 					if bb, ok := evRecvBool(m, ev, F.Neg); !ok || bb != cc.neg {
 						return ev.Fn + " is entered before the argument's sign was stored"
 					}
